@@ -177,8 +177,10 @@ C07_CommitAgree ==
 NewLeader == LeadEv # <<>> /\ LeadEv \notin lfirst
 NextLfirst == IF Is("scenario") THEN {} ELSE IF NewLeader THEN lfirst \cup {LeadEv} ELSE lfirst
 
+\* judged at the node's own no-op append (the linearisation point of becomeLeader) or at a
+\* quiescent status report; a `send' event is emitted outside the node's lock and may be late
 C07_Completeness ==
-  IF ~NewLeader THEN {} ELSE
+  IF ~NewLeader \/ Is("send") THEN {} ELSE
     LET n == LeadEv[1]
         lg == Log(n)     \* for the node's own no-op: the log before this event's append
         missing == {i \in DOMAIN committed : i > lg.base /\ (~HasIdx(lg, i) \/ At(lg, i) # committed[i])} IN
@@ -274,7 +276,11 @@ C08_OneVote ==
     IF other # {} THEN {V("C08", "TwoVotesInTerm", <<VoteEv, other>>)} ELSE {}
 
 C08_VoteUpToDate ==
-  IF ~(Is("handled") /\ Ev.kind = "rv" /\ ~Has("err") /\ Ev.ok /\ Ev.id \in DOMAIN reqs /\ ~reqs[Ev.id].pre) THEN {} ELSE
+  \* judged only when the voter was otherwise quiescent (step scheduler): under concurrent
+  \* deliveries the order of the `handled' event and the voter's log events is not the
+  \* order in which the voter's critical sections ran
+  IF ~(Is("handled") /\ Ev.kind = "rv" /\ ~Has("err") /\ Ev.ok /\ Ev.id \in DOMAIN reqs /\ ~reqs[Ev.id].pre
+       /\ Ev.id \in DOMAIN hpre /\ hpre[Ev.id].manual) THEN {} ELSE
     LET q == reqs[Ev.id]  lg == Log(Ev.to) IN
     IF q.lastt < LastTerm(lg) \/ (q.lastt = LastTerm(lg) /\ q.last < LastIdx(lg))
       THEN {V("C08", "VoteForStaleLog", <<Ev.id, q.last, q.lastt, LastIdx(lg), LastTerm(lg)>>)} ELSE {}
